@@ -353,6 +353,7 @@ pub fn ops_note(ops: &[u64]) -> String {
             4 => "write_all",
             5 => "write_n",
             6 => "peek_mut",
+            7 => "debug",
             _ => "?",
         };
         s.push_str(&format!("{}({}) ", name, p.get(1).unwrap_or(&0)));
